@@ -87,7 +87,7 @@ theorem supp_cons (m : Mode) (inGroup : Bool) (fuel : Nat) (pos : Pos) (prev c :
         if c = cBang then false
         else
           match scanGroup m.filenames (rest.length + 1) 0 [] [] rest.tail with
-          | .error _ => true
+          | .error _ => false
           | .ok none => false
           | .ok (some (alts, rest')) =>
             (!dotSens || pos == .mid) &&
@@ -114,6 +114,7 @@ theorem supp_cons (m : Mode) (inGroup : Bool) (fuel : Nat) (pos : Pos) (prev c :
         (match scanBracket m.filenames rest with
          | .ok neg items rest' =>
            !(m.filenames && (neg || items.any (·.mem cSlash))) &&
+           !(m.nocase && items.any (·.isCls)) &&
            (!dotSens || pos == .mid) && supp m inGroup fuel .mid cRB rest'
          | .notBracket => supp m inGroup fuel .mid cLB rest
          | .malformed _ => true)
@@ -772,20 +773,57 @@ theorem any_conv (B : List BItem) (y : Rune) :
   | nil => rfl
   | cons i B ih => simp only [List.map_cons, List.any_cons, convItem_mem, ih]
 
+theorem any_or_split {α : Type} (l : List α) (f g : α → Bool) :
+    l.any (fun y => f y || g y) = (l.any f || l.any g) := by
+  induction l with
+  | nil => rfl
+  | cons a l ih =>
+    simp only [List.any_cons, ih]
+    cases f a <;> cases g a <;> cases l.any f <;> cases l.any g <;> rfl
+
+theorem any_false {α : Type} (l : List α) : l.any (fun _ => false) = false := by
+  induction l with
+  | nil => rfl
+  | cons a l ih => simp [List.any_cons, ih]
+
+/-- Folding the subject character against the whole item list is the reference's item-wise
+    folding, as long as no POSIX class is folded. -/
+theorem fold_any_eq (nc : Bool) (items : List BItem) (x : Rune)
+    (h : nc = false ∨ ∀ i ∈ items, i.isCls = false) :
+    (variants nc x).any (fun y => items.any (·.mem y)) = items.any (·.memFold nc x) := by
+  induction items with
+  | nil => simp [any_false]
+  | cons i rest ih =>
+    have h' : nc = false ∨ ∀ j ∈ rest, j.isCls = false := by
+      rcases h with h | h
+      · exact .inl h
+      · exact .inr (fun j hj => h j (List.mem_cons_of_mem _ hj))
+    have hi : (variants nc x).any (fun y => i.mem y) = i.memFold nc x := by
+      rcases h with h | h
+      · subst h
+        cases i <;> simp [variants, BItem.memFold, BItem.mem]
+      · have := h i (List.mem_cons_self ..)
+        cases i with
+        | cls k => simp [BItem.isCls] at this
+        | ch c => rfl
+        | range lo hi => rfl
+    simp only [List.any_cons]
+    rw [any_or_split, ih h', hi]
+
 theorem SimFinal.setMem_eq {stG : BrSt} {stS : BSt} (h : SimFinal stG stS) (hr : stS.rangeErr = none)
-    (nc neg : Bool) (x : Rune) : setMem nc neg stG.items x = bracketMem nc neg stS.items x := by
+    (nc neg : Bool) (x : Rune) (hc : nc = false ∨ ∀ i ∈ stS.items, i.isCls = false) :
+    setMem nc neg stG.items x = bracketMem nc neg stS.items x := by
   obtain ⟨A, B, T, Tb, hA, hB, hbk, hv, hT⟩ := h.items hr
   have hds : DashSafe T := by
     intro b rest hh
     rcases hT with ⟨rfl, _⟩ | ⟨rfl, _⟩ <;> simp at hh
   have hp := parseItems_blks hbk hv T hds
   unfold setMem bracketMem
-  rw [hA, hp, hB]
+  rw [← fold_any_eq nc stS.items x hc, hA, hp, hB]
   rcases hT with ⟨rfl, rfl⟩ | ⟨rfl, rfl⟩
   · have : parseItems [] = some [] := by rw [parseItems.eq_def]
     simp only [this, Option.map_some, List.append_nil]
-    congr 1
-    congr 1
+    congr 2
     funext y
     exact any_conv B y
   · have : parseItems [CItem.raw cDash] = some [CRange.range cDash cDash] := by
@@ -793,13 +831,115 @@ theorem SimFinal.setMem_eq {stG : BrSt} {stS : BSt} (h : SimFinal stG stS) (hr :
       simp [CItem.char]
       rw [parseItems.eq_def]
     simp only [this, Option.map_some]
-    congr 1
-    congr 1
+    congr 2
     funext y
     rw [List.any_append, List.any_append, any_conv]
     congr 1
     simp only [List.any_cons, List.any_nil, Bool.or_false, CRange.mem, BItem.mem]
     exact convItem_mem (.ch cDash) y
+
+theorem SimFinal.parse_some {stG : BrSt} {stS : BSt} (h : SimFinal stG stS) (hr : stS.rangeErr = none) :
+    (parseItems stG.items).isSome = true := by
+  obtain ⟨A, B, T, Tb, hA, hB, hbk, hv, hT⟩ := h.items hr
+  have hds : DashSafe T := by
+    intro b rest hh
+    rcases hT with ⟨rfl, _⟩ | ⟨rfl, _⟩ <;> simp at hh
+  have hp := parseItems_blks hbk hv T hds
+  rw [hA, hp]
+  rcases hT with ⟨rfl, rfl⟩ | ⟨rfl, rfl⟩
+  · have : parseItems [] = some [] := by rw [parseItems.eq_def]
+    simp [this]
+  · have : parseItems [CItem.raw cDash] = some [CRange.range cDash cDash] := by
+      rw [parseItems.eq_def]
+      simp [CItem.char]
+      rw [parseItems.eq_def]
+    simp [this]
+
+/-- A class Go's regexp can read (in the sense of `parseItems`) compiles. -/
+theorem classCompiles_of_parse : ∀ (n : Nat) (items : List CItem), items.length ≤ n →
+    (parseItems items).isSome = true → classCompiles items = true := by
+  intro n
+  induction n with
+  | zero =>
+    intro items hl _
+    have : items = [] := List.length_eq_zero_iff.mp (Nat.le_zero.mp hl)
+    subst this
+    rw [classCompiles.eq_def]
+  | succ n ih =>
+    intro items hl hp
+    cases items with
+    | nil => rw [classCompiles.eq_def]
+    | cons a rest =>
+      have hl' : rest.length ≤ n := by simp at hl; omega
+      cases a with
+      | named k =>
+        rw [parseItems_named] at hp
+        rw [classCompiles.eq_def]
+        simp only
+        apply ih rest hl'
+        cases h : parseItems rest <;> simp [h] at hp ⊢
+      | raw c =>
+        cases rest with
+        | nil => rw [classCompiles.eq_def]; simp only; rw [classCompiles.eq_def]
+        | cons d rest2 =>
+          cases rest2 with
+          | nil =>
+            rw [classCompiles.eq_def]
+            simp only
+            apply ih [d] hl'
+            rw [parseItems.eq_def] at hp
+            simp only at hp
+            cases h : parseItems [d] <;> simp [h] at hp ⊢
+          | cons b rest3 =>
+            rw [parseItems.eq_def] at hp
+            rw [classCompiles.eq_def]
+            simp only at hp ⊢
+            by_cases hd : d = CItem.raw cDash
+            · simp only [hd, if_true] at hp ⊢
+              by_cases hb : b.isNamed = true
+              · simp [hb] at hp
+              · simp only [hb, Bool.false_eq_true, if_false] at hp ⊢
+                by_cases hv : (CItem.raw c).char ≤ b.char
+                · simp only [hv, if_true] at hp
+                  have : classCompiles rest3 = true := by
+                    apply ih rest3 (by simp at hl'; omega)
+                    cases h : parseItems rest3 <;> simp [h] at hp ⊢
+                  simp [hv, this]
+                · simp [hv] at hp
+            · simp only [hd, if_false] at hp ⊢
+              apply ih (d :: b :: rest3) hl'
+              cases h : parseItems (d :: b :: rest3) <;> simp [h] at hp ⊢
+      | esc c =>
+        cases rest with
+        | nil => rw [classCompiles.eq_def]; simp only; rw [classCompiles.eq_def]
+        | cons d rest2 =>
+          cases rest2 with
+          | nil =>
+            rw [classCompiles.eq_def]
+            simp only
+            apply ih [d] hl'
+            rw [parseItems.eq_def] at hp
+            simp only at hp
+            cases h : parseItems [d] <;> simp [h] at hp ⊢
+          | cons b rest3 =>
+            rw [parseItems.eq_def] at hp
+            rw [classCompiles.eq_def]
+            simp only at hp ⊢
+            by_cases hd : d = CItem.raw cDash
+            · simp only [hd, if_true] at hp ⊢
+              by_cases hb : b.isNamed = true
+              · simp [hb] at hp
+              · simp only [hb, Bool.false_eq_true, if_false] at hp ⊢
+                by_cases hv : (CItem.esc c).char ≤ b.char
+                · simp only [hv, if_true] at hp
+                  have : classCompiles rest3 = true := by
+                    apply ih rest3 (by simp at hl'; omega)
+                    cases h : parseItems rest3 <;> simp [h] at hp ⊢
+                  simp [hv, this]
+                · simp [hv] at hp
+            · simp only [hd, if_false] at hp ⊢
+              apply ih (d :: b :: rest3) hl'
+              cases h : parseItems (d :: b :: rest3) <;> simp [h] at hp ⊢
 
 /-- What the reference verdict `sc` and pattern.go's verdict `g` on a bracket must have in
     common (`s` is the text after the `[`). -/
@@ -807,7 +947,9 @@ def AgreeP (sc : BScan) (g : BrRes) (s : Str) : Prop :=
   match sc with
   | .ok neg items rest' =>
     ∃ st, g = .closed neg st rest' ∧ st.hasSlash = false ∧ st.deferred = none ∧
-      rest'.length < s.length ∧ ∀ nc x, setMem nc neg st.items x = bracketMem nc neg items x
+      rest'.length < s.length ∧ classCompiles st.items = true ∧
+      ∀ nc x, (nc = false ∨ ∀ i ∈ items, i.isCls = false) →
+        setMem nc neg st.items x = bracketMem nc neg items x
   | .malformed e =>
     g = .err e ∨ ∃ neg st rest', g = .closed neg st rest' ∧ st.hasSlash = false ∧ st.deferred = some e
   | .notBracket => g = .literal
@@ -882,7 +1024,8 @@ theorem agree_of_out (neg : Bool) (res : BSt × Option Str) (g : BrRes) (r s : S
       exact ⟨neg, stG', rest', hg, hf.noSlashG, by rw [hf.deferred, hr]⟩
     | none =>
       simp only [sbOfRes, hf.noSlashS, Bool.false_eq_true, if_false, hr, AgreeP]
-      exact ⟨stG', hg, hf.noSlashG, by rw [hf.deferred, hr], by omega, fun nc x => hf.setMem_eq hr nc neg x⟩
+      exact ⟨stG', hg, hf.noSlashG, by rw [hf.deferred, hr], by omega,
+        classCompiles_of_parse _ _ (Nat.le_refl _) (hf.parse_some hr), fun nc x hc => hf.setMem_eq hr nc neg x hc⟩
 
 theorem scanItems_nil (fn : Bool) (fuel : Nat) (first : Bool) (st : BSt) :
     scanItems fn fuel first st [] = (st, none) := by
@@ -1054,7 +1197,8 @@ theorem starDen_nofn {m : Mode} (h : m.filenames = false) (b : Bool) (s : Str) :
 /-- Agreement of the reference parse and the translation of the same (rest of a) pattern. -/
 def TopAgree (m : Mode) (r : Except Err Glob) (t : Except Err (Regex × List (Nat × Nat))) : Prop :=
   match r with
-  | .ok g => ∃ body, t = .ok (body, []) ∧ ∀ b s, Matches m.nocase body s ↔ GDen m g b s
+  | .ok g => ∃ body, t = .ok (body, []) ∧ goCompiles body = true ∧
+      ∀ b s, Matches m.nocase body s ↔ GDen m g b s
   | .error e => t = .error e
 
 /-- The continuation of `topLoop` after a token. -/
@@ -1064,7 +1208,7 @@ def contTok (r : Regex) (t : Except Err (Regex × List (Nat × Nat))) : Except E
   | .error e => .error e
 
 theorem TopAgree.cons {m : Mode} {gtok : Glob} {r : Regex}
-    {pr : Except Err Glob} {t : Except Err (Regex × List (Nat × Nat))}
+    {pr : Except Err Glob} {t : Except Err (Regex × List (Nat × Nat))} (hc : goCompiles r = true)
     (htok : ∀ b s, Matches m.nocase r s ↔ GDen m gtok b s) (h : TopAgree m pr t) :
     TopAgree m (andThenG gtok pr) (contTok r t) := by
   cases pr with
@@ -1074,9 +1218,9 @@ theorem TopAgree.cons {m : Mode} {gtok : Glob} {r : Regex}
     simp [andThenG, contTok, TopAgree]
   | ok g' =>
     simp only [TopAgree] at h
-    obtain ⟨body, rfl, hb⟩ := h
+    obtain ⟨body, rfl, hcb, hb⟩ := h
     simp only [andThenG, contTok, TopAgree]
-    refine ⟨_, rfl, ?_⟩
+    refine ⟨_, rfl, by simp [goCompiles, hc, hcb], ?_⟩
     intro b s
     rw [matches_cat_iff]
     simp only [GDen]
@@ -1118,7 +1262,7 @@ theorem top_agree (m : Mode) (hne : m.ext = false) (hnf : m.filenames = false) (
     | nil =>
       rw [parseSeq_nil, topLoop_succ, hfuel, next_nil]
       simp only [TopAgree]
-      exact ⟨_, rfl, fun b s => by rw [matches_eps_iff]; simp [GDen]⟩
+      exact ⟨_, rfl, rfl, fun b s => by rw [matches_eps_iff]; simp [GDen]⟩
     | cons c rest =>
       have hP' : rest.length < fP := by simp at hP; omega
       have hT' : rest.length < fT := by simp at hT; omega
@@ -1145,7 +1289,7 @@ theorem top_agree (m : Mode) (hne : m.ext = false) (hnf : m.filenames = false) (
             have e2 : cBS ≠ cQuest := by decide
             simp [hne, e1, e2]
           rw [topLoop_tok hn]
-          refine TopAgree.cons ?_ (ih _ d rest' fP fT (by simp at hP'; omega) (by simp at hT'; omega) hs)
+          refine TopAgree.cons rfl ?_ (ih _ d rest' fP fT (by simp at hP'; omega) (by simp at hT'; omega) hs)
           intro b s
           rw [matches_chr_iff]; simp [GDen]
       · simp only [hbs, if_false, hgrp, Bool.false_eq_true, hgrp2, and_true] at hs ⊢
@@ -1157,7 +1301,7 @@ theorem top_agree (m : Mode) (hne : m.ext = false) (hnf : m.filenames = false) (
             have e1 : cQuest ≠ cStar := by decide
             simp [hne, hnf, e1]
           rw [topLoop_tok hn]
-          refine TopAgree.cons ?_ (ih _ cQuest rest fP fT hP' hT' hs.2)
+          refine TopAgree.cons rfl ?_ (ih _ cQuest rest fP fT hP' hT' hs.2)
           intro b s
           rw [matches_any_iff]
           simp [GDen, wildOk_nofn hnf]
@@ -1169,7 +1313,7 @@ theorem top_agree (m : Mode) (hne : m.ext = false) (hnf : m.filenames = false) (
               rw [hfuel, next_cons]
               simp [hne, hnf]
             rw [topLoop_tok hn]
-            refine TopAgree.cons ?_ (ih _ cStar rest fP fT hP' hT' hs)
+            refine TopAgree.cons rfl ?_ (ih _ cStar rest fP fT hP' hT' hs)
             intro b s
             simp only [GDen]
             exact ⟨fun _ => starDen_nofn hnf b s, fun _ => matches_star_any _ s⟩
@@ -1203,7 +1347,7 @@ theorem top_agree (m : Mode) (hne : m.ext = false) (hnf : m.filenames = false) (
                 have hn : next m total (2 * total + 4) prev (cLB :: rest) = .tok (.chr cLB) cLB rest := by
                   rw [hnx, hag]
                 rw [topLoop_tok hn]
-                refine TopAgree.cons ?_ (ih _ cLB rest fP fT hP' hT' hs2)
+                refine TopAgree.cons rfl ?_ (ih _ cLB rest fP fT hP' hT' hs2)
                 intro b s
                 rw [matches_chr_iff]; simp [GDen]
               | malformed e =>
@@ -1218,22 +1362,31 @@ theorem top_agree (m : Mode) (hne : m.ext = false) (hnf : m.filenames = false) (
               | ok neg items rest' =>
                 rw [hsb] at hag hs2
                 simp only [AgreeP] at hag
-                obtain ⟨st, hbr, h1, h2, hlen, hmem⟩ := hag
+                obtain ⟨st, hbr, h1, h2, hlen, hcc, hmem⟩ := hag
                 simp only [hnf, Bool.false_and, Bool.not_false, Bool.true_and, Bool.and_eq_true] at hs2
                 simp only
                 have hn : next m total (2 * total + 4) prev (cLB :: rest) = .tok (.set neg st.items) cRB rest' := by
                   rw [hnx, hbr]; simp [h1, h2]
                 rw [topLoop_tok hn]
-                refine TopAgree.cons ?_ (ih _ cRB rest' fP fT (by omega) (by omega) hs2.2)
+                refine TopAgree.cons (by simp [goCompiles, hcc]) ?_ (ih _ cRB rest' fP fT (by omega) (by omega) hs2.2)
+                have hcls : m.nocase = false ∨ ∀ i ∈ items, i.isCls = false := by
+                  have h0 := hs2.1
+                  cases hnc : m.nocase with
+                  | false => exact .inl rfl
+                  | true =>
+                    right
+                    intro i hi
+                    simp only [hnc, Bool.true_and, Bool.not_eq_true', List.any_eq_false] at h0
+                    simpa using h0.1 i hi
                 intro b s
                 rw [matches_set_iff]
-                simp [GDen, wildOk_nofn hnf, hmem]
+                simp [GDen, wildOk_nofn hnf, hmem m.nocase _ hcls]
             · simp only [hlb, if_false, Bool.false_and, Bool.false_eq_true] at hs ⊢
               have hn : next m total (2 * total + 4) prev (c :: rest) = .tok (.chr c) c rest := by
                 rw [hfuel, next_cons]
                 simp [hne, hbs, hq, hst, hlb]
               rw [topLoop_tok hn]
-              refine TopAgree.cons ?_ (ih _ c rest fP fT hP' hT' hs)
+              refine TopAgree.cons rfl ?_ (ih _ c rest fP fT hP' hT' hs)
               intro b s
               rw [matches_chr_iff]; simp [GDen]
 
